@@ -64,6 +64,8 @@ def val_wire(v):
         return 's' + common.dotted(v)
     if isinstance(v, int):
         return 'i' + str(v)
+    if isinstance(v, float):
+        return 'f' + repr(v)
     if isinstance(v, (bytes, bytearray)):
         return 'b' + bytes(v).hex()
     if isinstance(v, datetime.datetime):
@@ -498,6 +500,8 @@ def dict_unwire(s):
             val = common.undotted(v[1:])
         elif v[0] == 'i':
             val = int(v[1:])
+        elif v[0] == 'f':
+            val = float(v[1:])
         elif v[0] == 'b':
             val = bytes.fromhex(v[1:])
         elif v[0] == 'd':
@@ -526,6 +530,10 @@ def ref_render(fc, v, codec):
         body = v
     else:
         if pyt in ('int', 'long'):
+            if isinstance(v, float):      # a whole number given as a float: its value counts
+                if v != int(v):
+                    raise RefError('a float with a fraction in an integer element')
+                v = int(v)
             if isinstance(v, str):        # a number given as text (the CSV tools do): its value counts, not its spelling
                 try:
                     v = int(v)
